@@ -370,6 +370,12 @@ def run_check(prop, tier, seed, out=print):
     st = merge(dumps)
     st.violations.extend(hung[:1])
     viols = check_known(prop, mod, out)
+    # findings listed under another property whose signature was met (and swallowed) during this search
+    by_id = {e["id"]: e for e in load_known()}
+    for fid, n in sorted(st.known.items()):
+        e = by_id.get(fid)
+        if e is not None and e["property"] != prop:
+            out(f"KNOWN-FINDING: property={prop} {fid} (listed under {e['property']}, met {n}x here) {e['what']}")
     # de-duplicate generated violations by signature
     seen = set()
     for v in st.violations:
